@@ -42,4 +42,303 @@ theorem ccn_loop (nc sbi : List Nat) (hs : sbi.length = nc.length) :
     · simp [calculate_chunk_num.chk, hub, hnc, hsbi, hc]; omega
     · simp [calculate_chunk_num.chk, hoof]
 
+/-- loop of `compute_array_to_seek`: the same mixed-radix accumulation as `ccn_loop`, over `dim_length`; `nt_size` is not touched -/
+theorem cats_loop (nc sbi : List Nat) (hs : sbi.length = nc.length) :
+    ∀ (k fuel : Nat) (s : compute_array_to_seek.St), k ≤ fuel → k + 1 ≤ nc.length →
+      s.j = (k : Int) - 1 → s.cnum = ((nc.drop (k + 1)).prod : Nat) →
+      s.user_seek = [(((lin (nc.drop k) (sbi.drop k)).2 : Nat) : Int)] →
+      s.array_indices = ints sbi → s.ddims_dim_length = ints nc → s.ub = false → s.oof = false →
+      let s' := compute_array_to_seek.loop0 fuel s
+      s'.ub = false ∧ s'.oof = false ∧ s'.user_seek = [(((lin nc sbi).2 : Nat) : Int)] ∧ s'.nt_size = s.nt_size := by
+  intro k
+  induction k with
+  | zero =>
+    intro fuel s _ _ hj _ hc _ _ hub hoof
+    have : ¬ (s.j ≥ 0) := by omega
+    cases fuel <;> simp [compute_array_to_seek.loop0, this, hub, hoof, hc]
+  | succ k ih =>
+    intro fuel s hf hk hj hcn hc hsbi hnc hub hoof
+    obtain ⟨fuel, rfl⟩ : ∃ f, fuel = f + 1 := ⟨fuel - 1, by omega⟩
+    have hj0 : s.j ≥ 0 := by omega
+    have hjk : s.j = (k : Int) := by omega
+    have e1 : (s.j + 1).toNat = k + 1 := by omega
+    have e2 : s.j.toNat = k := by omega
+    have hd : nc.drop (k + 1) = nc[k+1]?.getD 0 :: nc.drop (k + 2) := drop_cons_getD nc (k + 1) (by omega)
+    have hdk : nc.drop k = nc[k]?.getD 0 :: nc.drop (k + 1) := drop_cons_getD nc k (by omega)
+    have hds : sbi.drop k = sbi[k]?.getD 0 :: sbi.drop (k + 1) := drop_cons_getD sbi k (by omega)
+    simp only [compute_array_to_seek.loop0, hj0, if_true]
+    apply ih
+    · omega
+    · omega
+    · simp [compute_array_to_seek.chk]; omega
+    · simp [compute_array_to_seek.chk, hcn, hnc, e1, hd]; exact Int.mul_comm _ _
+    · simp [compute_array_to_seek.chk, hcn, hnc, hsbi, hc, e1, e2]
+      rw [hdk, hds]; simp [lin, lin_fst, hd]
+    · simp [compute_array_to_seek.chk, hsbi]
+    · simp [compute_array_to_seek.chk, hnc]
+    · simp [compute_array_to_seek.chk, hub, hnc, hsbi, hc]; omega
+    · simp [compute_array_to_seek.chk, hoof]
+
+/-- loop of `calculate_seek_in_chunk`: the same accumulation over `chunk_length` -/
+theorem csic_loop (nc sbi : List Nat) (hs : sbi.length = nc.length) :
+    ∀ (k fuel : Nat) (s : calculate_seek_in_chunk.St), k ≤ fuel → k + 1 ≤ nc.length →
+      s.j = (k : Int) - 1 → s.cnum = ((nc.drop (k + 1)).prod : Nat) →
+      s.chunk_seek = [(((lin (nc.drop k) (sbi.drop k)).2 : Nat) : Int)] →
+      s.spb = ints sbi → s.ddims_chunk_length = ints nc → s.ub = false → s.oof = false →
+      let s' := calculate_seek_in_chunk.loop0 fuel s
+      s'.ub = false ∧ s'.oof = false ∧ s'.chunk_seek = [(((lin nc sbi).2 : Nat) : Int)] ∧ s'.nt_size = s.nt_size := by
+  intro k
+  induction k with
+  | zero =>
+    intro fuel s _ _ hj _ hc _ _ hub hoof
+    have : ¬ (s.j ≥ 0) := by omega
+    cases fuel <;> simp [calculate_seek_in_chunk.loop0, this, hub, hoof, hc]
+  | succ k ih =>
+    intro fuel s hf hk hj hcn hc hsbi hnc hub hoof
+    obtain ⟨fuel, rfl⟩ : ∃ f, fuel = f + 1 := ⟨fuel - 1, by omega⟩
+    have hj0 : s.j ≥ 0 := by omega
+    have hjk : s.j = (k : Int) := by omega
+    have e1 : (s.j + 1).toNat = k + 1 := by omega
+    have e2 : s.j.toNat = k := by omega
+    have hd : nc.drop (k + 1) = nc[k+1]?.getD 0 :: nc.drop (k + 2) := drop_cons_getD nc (k + 1) (by omega)
+    have hdk : nc.drop k = nc[k]?.getD 0 :: nc.drop (k + 1) := drop_cons_getD nc k (by omega)
+    have hds : sbi.drop k = sbi[k]?.getD 0 :: sbi.drop (k + 1) := drop_cons_getD sbi k (by omega)
+    simp only [calculate_seek_in_chunk.loop0, hj0, if_true]
+    apply ih
+    · omega
+    · omega
+    · simp [calculate_seek_in_chunk.chk]; omega
+    · simp [calculate_seek_in_chunk.chk, hcn, hnc, e1, hd]; exact Int.mul_comm _ _
+    · simp [calculate_seek_in_chunk.chk, hcn, hnc, hsbi, hc, e1, e2]
+      rw [hdk, hds]; simp [lin, lin_fst, hd]
+    · simp [calculate_seek_in_chunk.chk, hsbi]
+    · simp [calculate_seek_in_chunk.chk, hnc]
+    · simp [calculate_seek_in_chunk.chk, hub, hnc, hsbi, hc]; omega
+    · simp [calculate_seek_in_chunk.chk, hoof]
+
+/-- loop of `update_seek_pos_chunk`: with `k` indices still to do (`i = k-1`), `stmp` and `spb[k..]` hold what the model's
+    recursion `uspcLoop` returns for the dimensions `k..` (it handles the fast dimensions first, as the C loop does) -/
+theorem uspc_loop (dd : List DimRec) (x : Nat) (hp : AllPos (cdimsOf dd)) :
+    ∀ (k fuel : Nat) (s : update_seek_pos_chunk.St), k ≤ fuel → k ≤ dd.length →
+      s.i = (k : Int) - 1 → s.stmp = ((uspcLoop (dd.drop k) x).1 : Nat) →
+      s.spb.length = dd.length → s.spb.drop k = ints (uspcLoop (dd.drop k) x).2 →
+      s.ddims_chunk_length = ints (cdimsOf dd) → s.ub = false → s.oof = false →
+      let s' := update_seek_pos_chunk.loop0 fuel s
+      s'.ub = false ∧ s'.oof = false ∧ s'.spb = ints (uspcLoop dd x).2 := by
+  intro k
+  induction k with
+  | zero =>
+    intro fuel s _ _ hi _ _ hc _ hub hoof
+    have : ¬ (s.i ≥ 0) := by omega
+    cases fuel <;> simp_all [update_seek_pos_chunk.loop0]
+  | succ k ih =>
+    intro fuel s hf hk hi hst hlen hspb hcl hub hoof
+    obtain ⟨fuel, rfl⟩ : ∃ f, fuel = f + 1 := ⟨fuel - 1, by omega⟩
+    have hi0 : s.i ≥ 0 := by omega
+    have e2 : s.i.toNat = k := by omega
+    have hceq : dd[k]? = some dd[k] := List.getElem?_eq_getElem (by omega)
+    have hcpos : 0 < dd[k].chunkLength := hp _ (List.mem_map.mpr ⟨dd[k], List.getElem_mem _, rfl⟩)
+    have hdk : dd.drop k = dd[k] :: dd.drop (k + 1) := List.drop_eq_getElem_cons (by omega)
+    simp only [update_seek_pos_chunk.loop0, hi0, if_true]
+    apply ih
+    · omega
+    · omega
+    · simp [update_seek_pos_chunk.chk]; omega
+    · rw [hdk]; simp [update_seek_pos_chunk.chk, hcl, e2, hst, uspcLoop, hceq]
+    · simp [update_seek_pos_chunk.chk, hlen]
+    · simp only [update_seek_pos_chunk.chk, e2]
+      rw [drop_set_self _ _ _ (by omega), hspb, hdk]
+      simp [hcl, hst, uspcLoop, hceq, tmod_nat]
+    · simp [update_seek_pos_chunk.chk, hcl]
+    · simp [update_seek_pos_chunk.chk, hub, hcl, e2, hlen, hceq]; omega
+    · simp [update_seek_pos_chunk.chk, hoof]
+
+/-- a check whose condition holds leaves the state as it is (used to run one loop iteration without unfolding the checks) -/
+theorem ucis_chk_true (s : update_chunk_indices_seek.St) (c : Prop) [Decidable c] (h : c) :
+    update_chunk_indices_seek.chk s c = s := by
+  simp [update_chunk_indices_seek.chk, h]
+
+/-- one iteration of the loop of `update_chunk_indices_seek` at index `k` with positive `dim_length[k]`, `chunk_length[k]`:
+    all checks pass and the three assignments are the model's `%`, `/` on naturals -/
+theorem ucis_step (dd : List DimRec) (k fuel : Nat) (s : update_chunk_indices_seek.St) (hk : k < dd.length)
+    (hpd : 0 < dd[k].dimLength) (hpc : 0 < dd[k].chunkLength) (x : Nat)
+    (hi : s.i = (k : Int)) (hst : s.stmp = (x : Int)) (hl1 : s.sbi.length = dd.length) (hl2 : s.spb.length = dd.length)
+    (hdl : s.ddims_dim_length = ints (dimsOf dd)) (hcl : s.ddims_chunk_length = ints (cdimsOf dd)) :
+    update_chunk_indices_seek.loop0 (fuel + 1) s = update_chunk_indices_seek.loop0 fuel
+      { s with sbi := s.sbi.set k ((x % dd[k].dimLength / dd[k].chunkLength : Nat) : Int),
+               spb := s.spb.set k ((x % dd[k].dimLength % dd[k].chunkLength : Nat) : Int),
+               stmp := ((x / dd[k].dimLength : Nat) : Int), i := (k : Int) - 1 } := by
+  have hi0 : s.i ≥ 0 := by omega
+  have hb : 0 ≤ (k : Int) ∧ (k : Int) < (dd.length : Int) := by omega
+  have h1 : ¬ ((dd[k].dimLength : Nat) : Int) = 0 := by omega
+  have h2 : ¬ ((dd[k].chunkLength : Nat) : Int) = 0 := by omega
+  have hv1 : s.ddims_dim_length.getD k 0 = ((dd[k].dimLength : Nat) : Int) := by rw [hdl]; exact ints_map_getD _ dd k hk
+  have hv2 : s.ddims_chunk_length.getD k 0 = ((dd[k].chunkLength : Nat) : Int) := by rw [hcl]; exact ints_map_getD _ dd k hk
+  have hl3 : s.ddims_dim_length.length = dd.length := by simp [hdl]
+  have hl4 : s.ddims_chunk_length.length = dd.length := by simp [hcl]
+  simp only [update_chunk_indices_seek.loop0, hi0, if_true]
+  simp only [ucis_chk_true, hi, hst, hl1, hl2, hl3, hl4, hv1, hv2, hb, h1, h2, tmod_nat, tdiv_nat, Int.toNat_natCast, ne_eq,
+    not_false_eq_true, and_self]
+
+/-- loop of `update_chunk_indices_seek`: the invariant of `uspc_loop` with the two OUT arrays `sbi`, `spb` and the model's `ucisLoop` -/
+theorem ucis_loop (dd : List DimRec) (x : Nat) (hpd : AllPos (dimsOf dd)) (hpc : AllPos (cdimsOf dd)) :
+    ∀ (k fuel : Nat) (s : update_chunk_indices_seek.St), k ≤ fuel → k ≤ dd.length →
+      s.i = (k : Int) - 1 → s.stmp = ((ucisLoop (dd.drop k) x).1 : Nat) →
+      s.sbi.length = dd.length → s.spb.length = dd.length →
+      s.sbi.drop k = ints (ucisLoop (dd.drop k) x).2.1 → s.spb.drop k = ints (ucisLoop (dd.drop k) x).2.2 →
+      s.ddims_dim_length = ints (dimsOf dd) → s.ddims_chunk_length = ints (cdimsOf dd) → s.ub = false → s.oof = false →
+      let s' := update_chunk_indices_seek.loop0 fuel s
+      s'.ub = false ∧ s'.oof = false ∧ s'.sbi = ints (ucisLoop dd x).2.1 ∧ s'.spb = ints (ucisLoop dd x).2.2 := by
+  intro k
+  induction k with
+  | zero =>
+    intro fuel s _ _ hi _ _ _ hc1 hc2 _ _ hub hoof
+    have : ¬ (s.i ≥ 0) := by omega
+    cases fuel <;> simp_all [update_chunk_indices_seek.loop0]
+  | succ k ih =>
+    intro fuel s hf hk hi hst hlen1 hlen2 hsbi hspb hdl hcl hub hoof
+    obtain ⟨fuel, rfl⟩ : ∃ f, fuel = f + 1 := ⟨fuel - 1, by omega⟩
+    have hcpos : 0 < dd[k].chunkLength := hpc _ (List.mem_map.mpr ⟨dd[k], List.getElem_mem _, rfl⟩)
+    have hdpos : 0 < dd[k].dimLength := hpd _ (List.mem_map.mpr ⟨dd[k], List.getElem_mem _, rfl⟩)
+    have hdk : dd.drop k = dd[k] :: dd.drop (k + 1) := List.drop_eq_getElem_cons (by omega)
+    rw [ucis_step dd k fuel s (by omega) hdpos hcpos _ (by omega) hst hlen1 hlen2 hdl hcl]
+    apply ih
+    · omega
+    · omega
+    · simp
+    · rw [hdk]; simp [ucisLoop]
+    · simp [hlen1]
+    · simp [hlen2]
+    · simp only []
+      rw [drop_set_self _ _ _ (by omega), hsbi, hdk]; simp [ucisLoop]
+    · simp only []
+      rw [drop_set_self _ _ _ (by omega), hspb, hdk]; simp [ucisLoop]
+    · exact hdl
+    · exact hcl
+    · exact hub
+    · exact hoof
+
+/-- one cell of `compute_chunk_to_array` (body of the model's recursion) -/
+def c2aElem (d : DimRec) (ci pi : Nat) : Nat :=
+  if ci + 1 == d.numChunks then ci * d.chunkLength + (if pi > d.lastChunkLength then d.lastChunkLength else pi)
+  else ci * d.chunkLength + pi
+
+theorem c2a_length (dd : List DimRec) : ∀ (sbi spb : List Nat), (computeChunkToArray dd sbi spb).length = dd.length := by
+  induction dd with
+  | nil => intros; rfl
+  | cons d ds ih => intro sbi spb; simp [computeChunkToArray, ih]
+
+theorem c2a_getD (dd : List DimRec) : ∀ (sbi spb : List Nat) (j : Nat) (h : j < dd.length),
+    (computeChunkToArray dd sbi spb)[j]?.getD 0 = c2aElem dd[j] (sbi[j]?.getD 0) (spb[j]?.getD 0) := by
+  induction dd with
+  | nil => intro _ _ j h; simp at h
+  | cons d ds ih =>
+    intro sbi spb j h
+    cases j with
+    | zero => cases sbi <;> cases spb <;> simp [computeChunkToArray, c2aElem]
+    | succ j =>
+      have := ih sbi.tail spb.tail j (by simpa using h)
+      simp only [computeChunkToArray, List.getElem?_cons_succ, List.getElem_cons_succ, this]
+      cases sbi <;> cases spb <;> simp
+
+theorem c2a_chk_true (s : compute_chunk_to_array.St) (c : Prop) [Decidable c] (h : c) :
+    compute_chunk_to_array.chk s c = s := by
+  simp [compute_chunk_to_array.chk, h]
+
+theorem c2a_step (dd : List DimRec) (sbi spb : List Nat) (hs : sbi.length = dd.length) (hp : spb.length = dd.length)
+    (m fuel : Nat) (s : compute_chunk_to_array.St) (hm : m < dd.length)
+    (hj : s.j = (m : Int)) (hn : s.ndims = (dd.length : Int)) (hl : s.array_indices.length = dd.length)
+    (hci : s.chunk_indices = ints sbi) (hca : s.chunk_array_ind = ints spb)
+    (hcl : s.ddims_chunk_length = ints (cdimsOf dd)) (hnc : s.ddims_num_chunks = ints (nchunksOf dd))
+    (hlc : s.ddims_last_chunk_length = ints (dd.map (·.lastChunkLength))) :
+    compute_chunk_to_array.loop0 (fuel + 1) s = compute_chunk_to_array.loop0 fuel
+      { s with array_indices := s.array_indices.set m ((c2aElem dd[m] (sbi[m]?.getD 0) (spb[m]?.getD 0) : Nat) : Int),
+               j := (m : Int) + 1 } := by
+  have hj0 : s.j < s.ndims := by omega
+  have hb : 0 ≤ (m : Int) ∧ (m : Int) < (dd.length : Int) := by omega
+  have hv1 : s.ddims_chunk_length.getD m 0 = ((dd[m].chunkLength : Nat) : Int) := by rw [hcl]; exact ints_map_getD _ dd m hm
+  have hv2 : s.ddims_num_chunks.getD m 0 = ((dd[m].numChunks : Nat) : Int) := by rw [hnc]; exact ints_map_getD _ dd m hm
+  have hv3 : s.ddims_last_chunk_length.getD m 0 = ((dd[m].lastChunkLength : Nat) : Int) := by rw [hlc]; exact ints_map_getD _ dd m hm
+  have hv4 : s.chunk_indices.getD m 0 = ((sbi[m]?.getD 0 : Nat) : Int) := by rw [hci]; simp
+  have hv5 : s.chunk_array_ind.getD m 0 = ((spb[m]?.getD 0 : Nat) : Int) := by rw [hca]; simp
+  have hl1 : s.ddims_chunk_length.length = dd.length := by simp [hcl]
+  have hl2 : s.ddims_num_chunks.length = dd.length := by simp [hnc]
+  have hl3 : s.ddims_last_chunk_length.length = dd.length := by simp [hlc]
+  have hl4 : s.chunk_indices.length = dd.length := by simp [hci, hs]
+  have hl5 : s.chunk_array_ind.length = dd.length := by simp [hca, hp]
+  have hg : ∀ v : Int, (s.array_indices.set m v).getD m 0 = v := fun v => getD_set_self _ _ _ _ (by omega)
+  simp only [compute_chunk_to_array.loop0, hj0, if_true]
+  by_cases hc : sbi[m]?.getD 0 + 1 = dd[m].numChunks
+  · have hc' := eq_true (show ((sbi[m]?.getD 0 : Nat) : Int) = ((dd[m].numChunks : Nat) : Int) - 1 by omega)
+    have hval : (((sbi[m]?.getD 0 : Nat) : Int) * ((dd[m].chunkLength : Nat) : Int) +
+        (if ((spb[m]?.getD 0 : Nat) : Int) > ((dd[m].lastChunkLength : Nat) : Int) then ((dd[m].lastChunkLength : Nat) : Int)
+         else ((spb[m]?.getD 0 : Nat) : Int))) = ((c2aElem dd[m] (sbi[m]?.getD 0) (spb[m]?.getD 0) : Nat) : Int) := by
+      by_cases h : spb[m]?.getD 0 > dd[m].lastChunkLength
+      · have h' : ((spb[m]?.getD 0 : Nat) : Int) > ((dd[m].lastChunkLength : Nat) : Int) := by omega
+        simp [c2aElem, hc, h, h']
+      · have h' : ¬ ((spb[m]?.getD 0 : Nat) : Int) > ((dd[m].lastChunkLength : Nat) : Int) := by omega
+        simp [c2aElem, hc, h, h']
+    simp only [c2a_chk_true, hj, hl, hl1, hl2, hl3, hl4, hl5, hv1, hv2, hv3, hv4, hv5, hb, hc', Int.toNat_natCast,
+      and_self, or_true, if_true, List.length_set, hg, List.set_set, hval]
+  · have hc' := eq_false (show ¬ (((sbi[m]?.getD 0 : Nat) : Int) = ((dd[m].numChunks : Nat) : Int) - 1) by omega)
+    have hval : (((sbi[m]?.getD 0 : Nat) : Int) * ((dd[m].chunkLength : Nat) : Int) + ((spb[m]?.getD 0 : Nat) : Int))
+        = ((c2aElem dd[m] (sbi[m]?.getD 0) (spb[m]?.getD 0) : Nat) : Int) := by
+      simp [c2aElem, hc]
+    simp only [c2a_chk_true, hj, hl, hl1, hl2, hl3, hl4, hl5, hv1, hv2, hv3, hv4, hv5, hb, hc', Int.toNat_natCast,
+      and_self, or_true, if_false, List.length_set, hg, List.set_set, hval]
+
+/-- loop of `compute_chunk_to_array` (index running UP): with `k` indices still to do, the first `ndims - k` cells of the OUT array
+    hold the model's result -/
+theorem c2a_loop (dd : List DimRec) (sbi spb : List Nat) (hs : sbi.length = dd.length) (hp : spb.length = dd.length) :
+    ∀ (k fuel : Nat) (s : compute_chunk_to_array.St), k ≤ fuel → k ≤ dd.length →
+      s.j = (dd.length : Int) - (k : Int) → s.ndims = (dd.length : Int) → s.array_indices.length = dd.length →
+      s.array_indices.take (dd.length - k) = ints ((computeChunkToArray dd sbi spb).take (dd.length - k)) →
+      s.chunk_indices = ints sbi → s.chunk_array_ind = ints spb →
+      s.ddims_chunk_length = ints (cdimsOf dd) → s.ddims_num_chunks = ints (nchunksOf dd) →
+      s.ddims_last_chunk_length = ints (dd.map (·.lastChunkLength)) → s.ub = false → s.oof = false →
+      let s' := compute_chunk_to_array.loop0 fuel s
+      s'.ub = false ∧ s'.oof = false ∧ s'.array_indices = ints (computeChunkToArray dd sbi spb) := by
+  intro k
+  induction k with
+  | zero =>
+    intro fuel s _ _ hj hn hl ht _ _ _ _ _ hub hoof
+    have : ¬ (s.j < s.ndims) := by omega
+    have h1 : s.array_indices.take dd.length = s.array_indices := List.take_of_length_le (by omega)
+    have h2 : (computeChunkToArray dd sbi spb).take dd.length = computeChunkToArray dd sbi spb :=
+      List.take_of_length_le (by rw [c2a_length]; omega)
+    simp only [Nat.sub_zero, h1, h2] at ht
+    cases fuel <;> simp [compute_chunk_to_array.loop0, this, hub, hoof, ht]
+  | succ k ih =>
+    intro fuel s hf hk hj hn hl ht hci hca hcl hnc hlc hub hoof
+    obtain ⟨fuel, rfl⟩ : ∃ f, fuel = f + 1 := ⟨fuel - 1, by omega⟩
+    obtain ⟨m, hm⟩ : ∃ m, dd.length = m + (k + 1) := ⟨dd.length - (k + 1), by omega⟩
+    have e1 : dd.length - (k + 1) = m := by omega
+    have e2 : dd.length - k = m + 1 := by omega
+    rw [e1] at ht
+    rw [c2a_step dd sbi spb hs hp m fuel s (by omega) (by omega) hn hl hci hca hcl hnc hlc]
+    apply ih
+    · omega
+    · omega
+    · simp only []; omega
+    · exact hn
+    · simp [hl]
+    · simp only [e2]
+      rw [take_set_succ _ _ _ (by omega), ht, take_succ_getD _ _ (by rw [c2a_length]; omega), ints_append,
+        c2a_getD dd sbi spb m (by omega)]
+      rfl
+    · exact hci
+    · exact hca
+    · exact hcl
+    · exact hnc
+    · exact hlc
+    · exact hub
+    · exact hoof
+
+/-- start of the three mixed-radix loops: `x[ndims-1]` is the model's value for the last dimension alone -/
+theorem lin_last (rs xs : List Nat) (n : Nat) (hr : rs.length = n + 1) (hx : xs.length = n + 1) :
+    (lin (rs.drop n) (xs.drop n)).2 = xs[n]?.getD 0 := by
+  rw [drop_cons_getD rs n (by omega), drop_cons_getD xs n (by omega)]
+  have : rs.drop (n + 1) = [] := by simp; omega
+  simp [lin, this]
+
 end H4.Lemmas.C04Fn
